@@ -290,6 +290,15 @@ def check(ctx):
             gens[(nm, short(col))] = fs[0]
             ctx.analysed(fs[0])
 
+    # ---- M8 value-level rules: first, so that what they decide is on record before a form rule below meets a shape it does not
+    # know and stops the check (a stop of their own is raised only after the form rules had their say)
+    import props.C01sem as sem
+    sem_stop = None
+    try:
+        sem.check(ctx, p, gens, emissions, loop_source, dirs)
+    except AnalysisBroken as e_:
+        sem_stop = e_
+
     # ---- M1 category x partition matrix ------------------------------------------------------------------------
     for col in ('WHITE', 'BLACK'):
         up = 8 if col == 'WHITE' else -8
@@ -380,6 +389,9 @@ def check(ctx):
             if '(2*' in to or '2*' in to:
                 kind = 'double'
             ep = 'enpassant_square' in gstr
+            if case is None:
+                raise AnalysisBroken('C01: generate_pinned_pawn_moves<%s> emits a move outside the cases of its pin-direction switch; '
+                                     'the form rule about pinned pawns reads that switch' % col)
             cells.add((case, 'promo-' + kind if creator == 'create_promotion' else kind, ep))
         want_cells = {(0, 'capture', True), (2, 'capture', True), (1, 'push', False), (1, 'double', False),
                       (0, 'promo-capture', False), (2, 'promo-capture', False), (1, 'promo-push', False)}
@@ -396,6 +408,9 @@ def check(ctx):
                     case = a.get('casev')
                     break
             to = canon(fp, args[1]).replace(' ', '')
+            if case not in (0, 1, 2):
+                raise AnalysisBroken('C01: generate_pinned_pawn_moves<%s> emits a move outside the three cases of its pin-direction switch; '
+                                     'the form rule about pinned pawns reads that switch' % col)
             want_dir = {0: 7 if col == 'WHITE' else -7, 1: up, 2: 9 if col == 'WHITE' else -9}[case]
             # the direction constant inside the to-square arithmetic
             vals = [x['cv'] for x in walk(args[1]) if x.get('ref', {}).get('k') == 'Local' and 'cv' in x and 'Direction' in x.get('t', '')]
@@ -686,7 +701,6 @@ def check(ctx):
            'the generator\'s own ray walk (pins, moves of pinned sliders) stops at the nearest blocker in every direction and agrees with the '
            'table builder (C11.R3)%s' % ('' if not bad else ' — refuted: ' + '; '.join('%s at %s: %s' % (r[0], r[4], r[3][:160]) for r in bad)),
            site=bad[0][4] if bad else 'engine/movegen.cpp')
-    # ---- M8 value-level rules -------------------------------------------------------------------------------------------------
-    import props.C01sem as sem
-    sem.check(ctx, p, gens, emissions, loop_source, dirs)
+    if sem_stop is not None:
+        raise sem_stop
     ctx.note('not decided: that the generated set equals the FIDE-legal set for every position; absence of duplicates')
